@@ -8,7 +8,7 @@ R5  core::{eq,conj,disj,exct_one,negate} route to the namesakes.
 """
 from ..expr import LocalEnv, canon, show
 from ..facts import AnalysisBroken, short, src, walk
-from ..tables import VecBuilder, clause_of_call, enum_paths, fmt_items
+from ..tables import VecBuilder, clause_of_call, enum_paths, fmt_items, path_literals, value_of
 from ..schema import call_ctx, norm_clause, posted, _rename, _contains
 
 SC = 'smt::sat_core::'
@@ -264,21 +264,12 @@ def r3(ctx, fs):
             ('True', 'Undefined'): 'right', ('False', 'Undefined'): N('right'), ('Undefined', 'True'): 'left', ('Undefined', 'False'): N('left')}
     seen = {}
     for p in enum_paths(f.body):
-        cell = {}
-        bad = False
-        for c in p.conds:
-            if c[0] != 'switch':
-                continue
-            t = canon(c[1], env, subst=False)
-            labs = [l[2] for l in c[2] if l[0] == 'case']
-            if any(l[0] == 'nomatch' for l in c[2]):
-                bad = True          # all three enumerators of lbool are covered: the fall-out edge does not exist
-                continue
-            if t == VL and 'L' not in cell:
-                cell['L'] = labs
-            elif t == VR and 'R' not in cell:
-                cell['R'] = labs
-        if bad or 'L' not in cell or 'R' not in cell or len(cell['L']) != 1 or len(cell['R']) != 1:
+        # the cell of the path: what its conditions (switch arms, if chains, early returns - one thing) say about value(left) and value(right)
+        lits = path_literals(p.conds, lambda n: canon(n, env, subst=False))
+        if lits is None:
+            continue            # all three values of an lbool excluded: the fall-out edge does not exist
+        cell = {'L': [value_of(lits, VL)], 'R': [value_of(lits, VR)]}
+        if cell['L'][0] is None or cell['R'][0] is None:
             continue
         key = (cell['L'][0], cell['R'][0])
         if key in seen:
